@@ -231,6 +231,12 @@ func (cb *CellBuffer) Fill(r rune, style Style) {
 	width := cellWidth(r)
 	for i := range cb.cells {
 		c := &cb.cells[i]
+		if c.width > 1 && (c.currMain != r || len(c.currComb) != 0) && (i+1)%cb.w != 0 {
+			// a wide rune is replaced: the column it covered has to
+			// be painted again as well (as SetContent does; no rune
+			// is wider than two columns)
+			cb.cells[i+1].lastMain = rune(0)
+		}
 		c.currMain = r
 		c.currComb = nil
 		cs := style
